@@ -46,7 +46,7 @@ PROPS = {
                 cone=["Model/Dyn.v", "Proofs/DynP.v"] + ENGINE_CONE,
                 rule="a grammar over Go dynamic types at a struct position (map[string]any/string/int/float64/bool and their named versions, maps with named string keys, non-string keys, named / interface / slice element types, structs with unexported fields named like schema keys, pointers up to three levels with nil at every level, typed nils, every other kind incl. NaN/Inf, channels, funcs, invalid UTF-8) parsed under recover() by a well-configured struct schema with a 48-byte key; JSON documents of every top-level shape through zjson; one schema reused with two destination layouts; plus the engine and front-end families (wrong types, {} , malformed bodies) with the panic projection; distinct = distinct dynamic types",
                 families=[sat("dyn", "dyn", 600, 6000, ["panic", "model_expects_panic", "root_coerce", "presence", "reuse"], shard=300),
-                          eng("engine", "default", 800, 12000, ["panic"]),
+                          eng("engine", "C06", 800, 12000, ["panic"]),
                           dict(name="fe", family="fe", profile="fe", quick=500, thorough=8000, tags=["panic"])]),
     "C07": dict(theorems=["C07_reinit_zog_issue", "C07_reinit_ctx_issue", "C07_reinit_issue_from_test", "C07_reinit_issue_from_coerce", "C07_reinit_exec_ctx",
                           "C07_reinit_schema_ctx", "C07_reinit_validate_schema_ctx", "C07_fresh_ctx_has_no_values", "C07_pools_stay_linear",
@@ -114,7 +114,9 @@ PROPS = {
                 rule="every (input representation, numeric schema kind) pair on boundary-directed inputs (+-2^31, +-2^63, 2^24/2^53 neighbours via nextafter, max float32 and successors, decimal/exponent strings, NaN/Inf) plus random bit patterns; the destination is compared bit-exactly with the model and, independently, with an exact big.Rat oracle; the same leaf placed as an element of a []any or of a typed Go slice, as a struct field and behind a pointer must be coerced identically; distinct = distinct (kind, input)",
                 families=[sat("numeric", "numeric", 2500, 40000, ["coerce", "numeric_oracle", "numeric_placement"]),
                           # numbers as the front ends deliver them (JSON literals beyond float64, form/query/env strings)
-                          dict(name="fe", family="fe", profile="fe", quick=900, thorough=12000, tags=["nil", "issues", "dest", "panic"])]),
+                          dict(name="fe", family="fe", profile="fe", quick=900, thorough=12000, tags=["nil", "issues", "dest", "panic"]),
+                          # numbers inside records of every Go map type: refused or exact, never widened through a float
+                          sat("dyn", "dyn", 400, 4000, ["root_coerce", "presence", "panic"], shard=300)]),
     "C19": dict(theorems=["C19_default_never_changes", "C19_every_use_like_the_first", "C19_legacy_alias_refuted", "C19_validate_writes_only_through_default_catch_pt"],
                 cone=["Model/SliceHeap.v", "Proofs/PurityP.v"] + ENGINE_CONE,
                 rule="generated schemas rich in defaults (incl. slice-valued), catches and destination-mutating PostTransforms; inputs as []any and as typed []string / []int slices; reflect-based fingerprints (unexported fields, slice backing-array addresses) of the schema object graph and of the input before and after each execution; the returned destination is then overwritten everywhere and the fingerprints compared again; a second identical use is compared with the first; Validate on schemas without writers must leave the value as it was; every execution is also compared with the Coq engine; distinct = distinct (schema shape, issue codes, mode)",
